@@ -129,13 +129,17 @@ pub fn worker(check: &dyn Check, tier: Tier, base: u64, w: u64, n: u64, secs: u6
     let mut keys: HashSet<u64> = HashSet::new();
     let mut shapes: HashSet<u64> = HashSet::new();
 
+    install_watchdog();
+    heartbeat(false);
     let cur_path = current_case_path(std::os::unix::process::parent_id(), w);
     if let Some(d) = cur_path.parent() {
         let _ = std::fs::create_dir_all(d);
     }
     let mut handle = |s: &mut WorkerSummary, seed: Option<u64>, case: Value, keys: &mut HashSet<u64>, shapes: &mut HashSet<u64>| {
         let _ = std::fs::write(&cur_path, json!({"seed": seed, "case": case}).to_string());
+        heartbeat(true);
         let v = check.execute(&case);
+        heartbeat(false);
         s.cases += 1;
         s.runs += v.runs;
         s.decisions += v.decisions;
@@ -324,6 +328,34 @@ fn run_child(args: &[String], stdin: Option<&str>) -> Option<(i32, String)> {
     Some((code, String::from_utf8_lossy(&out.stdout).to_string()))
 }
 
+static LAST_BEAT: std::sync::atomic::AtomicU64 = std::sync::atomic::AtomicU64::new(0);
+
+fn now_secs() -> u64 {
+    std::time::SystemTime::now().duration_since(std::time::UNIX_EPOCH).map(|d| d.as_secs()).unwrap_or(0)
+}
+
+/// Last-resort net for code under test that escapes the simulator (e.g. blocks on a real
+/// descriptor): a process that spends more than VERIF_CASE_TIMEOUT (default 120) seconds of real
+/// time inside one case aborts itself; the driver then attributes the abort to the noted case,
+/// like any other crash. Cases take milliseconds to a few seconds on the unchanged tree.
+pub fn install_watchdog() {
+    let limit: u64 = std::env::var("VERIF_CASE_TIMEOUT").ok().and_then(|s| s.parse().ok()).unwrap_or(120);
+    LAST_BEAT.store(now_secs(), std::sync::atomic::Ordering::SeqCst);
+    std::thread::spawn(move || loop {
+        std::thread::sleep(std::time::Duration::from_secs(1));
+        let last = LAST_BEAT.load(std::sync::atomic::Ordering::SeqCst);
+        if last != 0 && now_secs().saturating_sub(last) > limit {
+            eprintln!("brushsim: one case ran for more than {limit} s of real time; aborting this process");
+            std::process::abort();
+        }
+    });
+}
+
+/// Marks the start of a case (or the end of all cases with `false`).
+pub fn heartbeat(running: bool) {
+    LAST_BEAT.store(if running { now_secs() } else { 0 }, std::sync::atomic::Ordering::SeqCst);
+}
+
 /// Where worker `w` of the orchestrator with process id `orch` notes the case it is executing
 /// (so that a crash of the code under test - stack overflow, abort - can be attributed).
 fn current_case_path(orch: u32, w: u64) -> PathBuf {
@@ -341,25 +373,50 @@ pub fn orchestrate(check: &dyn Check, opts: &CheckOpts) -> i32 {
     let _ = std::fs::create_dir_all(root.join("replays"));
     let known = load_known();
 
-    // 1. corpus: committed replay files that must pass on a correct tree
+    // 1. corpus: committed replay files that must pass on a correct tree. They run in a child
+    // process, so that a case that crashes or hangs the code under test is attributed to it.
     let mut corpus_run = 0u64;
     let mut violations: Vec<(Value, Violation, String)> = vec![]; // (case, violation, origin)
+    let mut crashed: Vec<(Value, String, i32)> = vec![];
     let corpus_dir = root.join("corpus").join(id);
     if let Ok(rd) = std::fs::read_dir(&corpus_dir) {
         let mut files: Vec<_> = rd.filter_map(|e| e.ok()).map(|e| e.path()).filter(|p| p.extension().is_some_and(|x| x == "json")).collect();
         files.sort();
+        let mut pending: Vec<(String, Value)> = vec![];
         for f in files {
             let Ok(s) = std::fs::read_to_string(&f) else { continue };
             let Ok(v) = serde_json::from_str::<Value>(&s) else { continue };
-            let case = v.get("case").cloned().unwrap_or(Value::Null);
-            let verdict = check.execute(&case);
-            corpus_run += 1;
-            if let Some(e) = verdict.harness_error {
-                println!("HARNESS-ERROR corpus {}: {e}", f.display());
+            pending.push((f.display().to_string(), v.get("case").cloned().unwrap_or(Value::Null)));
+        }
+        while !pending.is_empty() {
+            let cases: Vec<&Value> = pending.iter().map(|(_, c)| c).collect();
+            let input = serde_json::to_string(&cases).unwrap_or_default();
+            let Some((code, out)) = run_child(&["exec-cases".to_string(), id.to_string()], Some(&input)) else {
+                println!("HARNESS-ERROR cannot run the corpus process");
                 return 2;
+            };
+            let mut done = 0usize;
+            for line in out.lines().filter(|l| l.starts_with('{')) {
+                let Ok(verdict) = serde_json::from_str::<Verdict>(line) else { continue };
+                let (name, case) = &pending[done];
+                done += 1;
+                corpus_run += 1;
+                if let Some(e) = verdict.harness_error {
+                    println!("HARNESS-ERROR corpus {name}: {e}");
+                    return 2;
+                }
+                if let Some(viol) = verdict.violation {
+                    violations.push((case.clone(), viol, format!("corpus:{name}")));
+                }
             }
-            if let Some(viol) = verdict.violation {
-                violations.push((case, viol, format!("corpus:{}", f.display())));
+            if done < pending.len() {
+                // the process ended while executing pending[done]
+                let (name, case) = pending[done].clone();
+                corpus_run += 1;
+                crashed.push((case, format!("corpus:{name}"), if code >= 1000 { code - 1000 } else { 0 }));
+                pending.drain(..=done);
+            } else {
+                pending.clear();
             }
         }
     }
@@ -395,7 +452,6 @@ pub fn orchestrate(check: &dyn Check, opts: &CheckOpts) -> i32 {
     let mut keys: HashSet<u64> = HashSet::new();
     let mut shapes: HashSet<u64> = HashSet::new();
     let mut rechecks: Vec<(u64, Vec<u64>)> = vec![];
-    let mut crashed: Vec<(Value, String, i32)> = vec![];
     for (w, c) in children.into_iter().enumerate() {
         let out = match c.wait_with_output() {
             Ok(o) => o,
@@ -589,7 +645,7 @@ pub fn orchestrate(check: &dyn Check, opts: &CheckOpts) -> i32 {
         let detail = if *sig == 0 {
             "the process executing this case ended without a verdict (the code under test exited or replaced the process), again in a fresh process".to_string()
         } else {
-            format!("the process executing this case was killed by signal {sig} (stack overflow or abort in the code under test), again in a fresh process")
+            format!("the process executing this case was killed by signal {sig} (stack overflow or abort in the code under test, or a case beyond the real-time limit per case), again in a fresh process")
         };
         let name = format!("{id}-{:016x}.json", splitmix(case_s.len() as u64 ^ splitmix(case_s.bytes().fold(0u64, |a, b| a.wrapping_mul(131).wrapping_add(b as u64)))));
         let path = root.join("replays").join(&name);
